@@ -157,3 +157,27 @@ Example c18m_thm_scope_cases :
                           [mkBlock 3 3 2 1; mkBlock 10 10 9 5; mkBlock 11 11 10 10] [1;2;3;9;10;11;12] [3;10;11]) = true /\
   c18_moving_thm_scope (model_case c18m_cfg_fail (LIncl c18m_r0) c18m_h_incl [0;1;2;3;4;5;6;7] [1;2;3;5;6]) = true.
 Proof. vm_compute. auto. Qed.
+
+(* why the last sub-clause of lowest_clause has the hypothesis "the parent is not in the buffer": with the exclusive LIB
+   (10,10), the LIB block 10 itself and its parent 9 are fed BEFORE the first delivery (nothing is dropped while nothing
+   was sent); the consumer's chain is 11 12, but the retained chain of the head is 9 10 11 12: LowestBlockNum is 9 and
+   blocksFromNum 9 serves 9 and 10 (new+irreversible), which the consumer of the live stream never saw *)
+Example c18m_under :
+  let cfg := mkCfg 1 false false 5 false (mkFilter true true true true) None in
+  let r10 := mkR 10 10 in
+  let h := [mkBlock 9 9 8 1; mkBlock 10 10 9 1; mkBlock 11 11 10 10; mkBlock 12 12 11 11] in
+  c18_scope cfg r10 (LExcl r10) h /\
+  exists evs s, reaches cfg (fs_init (LExcl r10)) h evs s /\
+    apply_all 10 [] evs = Some [mkBlock 12 12 11 11; mkBlock 11 11 10 10] /\
+    lowest_block_num s = Some 9 /\ retained_chain s h /\
+    exists e9, blocks_from_num s 9 = BOk e9 /\ map (fun e => (estep e, bid (eblk e))) e9 = [(SNewIrr, 9); (SNewIrr, 10); (SNewIrr, 11); (SNew, 12)].
+Proof.
+  cbv zeta. split; [split; [left; reflexivity|]; split; [reflexivity|]; split; [reflexivity | vm_compute; reflexivity]|].
+  match goal with |- exists evs s, reaches ?c ?s0 ?h evs s /\ _ => destruct (run_to c s0 h) as [[evs s]|] eqn:R; [|vm_compute in R; discriminate] end.
+  exists evs, s. split; [apply run_to_reaches; exact R|]. vm_compute in R. injection R as <- <-.
+  split; [vm_compute; reflexivity|]. split; [vm_compute; reflexivity|]. split.
+  { cbn [retained_chain last]. split; [vm_compute; reflexivity|]. split; [cbn; auto|].
+    split; [|vm_compute; reflexivity].
+    repeat constructor; (eexists; split; [vm_compute; reflexivity | reflexivity]). }
+  eexists. split; vm_compute; reflexivity.
+Qed.
